@@ -43,6 +43,11 @@ def provide(key, val, body, extra=()):
     return ("provide", key, [("f", val)] + list(extra), list(body))
 
 
+def provide_kw(key, kw, body):
+    """a provide tag with the keyword arguments in exactly the written order"""
+    return ("provide", key, list(kw), list(body))
+
+
 def family_lib():
     """fixed library of the exhaustive family: consumers and wrappers"""
     def consumer(tag, data):
@@ -54,10 +59,16 @@ def family_lib():
         ("consd", consumer("d", [("v", ("inject", "pa", "f", "D"))])),
         ("cons2", consumer("e", [("v", ("inject", "pa", "f", "D")), ("w", ("inject", "pb", "f", "DB"))])),
         ("consg", consumer("g", [("v", ("inject", "pa", "g", "D"))])),
+        # consumers that read several fields of one provider BY NAME (the separators keep the values apart in the output)
+        ("consfg", {"tpl": [T("(fg="), ("out", ("var", "v")), T("/"), ("out", ("var", "w")), T(")")],
+                    "data": [("v", ("inject", "pa", "f", "D")), ("w", ("inject", "pa", "g", "DG"))]}),
+        ("cons3", {"tpl": [T("(fgh="), ("out", ("var", "v")), T("/"), ("out", ("var", "w")), T("/"), ("out", ("var", "x")), T(")")],
+                   "data": [("x", ("inject", "pa", "h", "DH")), ("v", ("inject", "pa", "f", "D")), ("w", ("inject", "pa", "g", "DG"))]}),
         ("w0", {"tpl": [T("W["), slot, T("]")], "data": []}),
         ("wp", {"tpl": [T("W["), provide("pa", ("str", "in"), [slot]), T("]")], "data": []}),
         ("wd", {"tpl": [T("W["), slot_d, T("]")], "data": []}),
         ("wpd", {"tpl": [T("W["), provide("pa", ("str", "in"), [slot_d], extra=[("g", ("var", "dv"))]), T("]")], "data": [("dv", ("str", "G"))]}),
+        ("wgf", {"tpl": [T("W["), provide_kw("pa", [("g", ("str", "ig")), ("f", ("str", "if"))], [slot]), T("]")], "data": []}),
         ("wl", {"tpl": [T("W["), ("for", "i", ("var", "two"), [slot, ("out", ("var", "i"))]), T("]")], "data": [("two", ("kw", "l"))]}),
         ("wn", {"tpl": [T("N["), comp("w0", [("fill", ("str", "s"), None, None, [T("!"), slot])]), T("]")], "data": []}),
         ("wpn", {"tpl": [T("N["), provide("pb", ("str", "inb"), [comp("wp", [("fill", ("str", "s"), None, None, [T("!"), slot])])]), T("]")], "data": []}),
@@ -127,6 +138,47 @@ def family_wrappings():
     ]
 
 
+def perm_pages():
+    """providers with the SAME SET of 2-3 kwarg names written in DIFFERENT orders - within one program (siblings, shadowing,
+    component template vs page, loop iterations) and, since all programs run in one process, across renders"""
+    S = lambda s: ("str", s)   # noqa: E731
+    fg = lambda a, b, body: provide_kw("pa", [("f", a), ("g", b)], body)   # noqa: E731
+    gf = lambda a, b, body: provide_kw("pa", [("g", b), ("f", a)], body)   # noqa: E731
+    c2, c3 = comp("consfg"), comp("cons3")
+    out = [
+        ("fg", [fg(S("A"), S("B"), [c2])]),
+        ("gf", [gf(S("A2"), S("B2"), [c2])]),
+        ("fg(gf)", [fg(S("A"), S("B"), [c2, gf(S("C"), S("D"), [c2, c2]), c2])]),
+        ("gf(fg)", [gf(("var", "p1"), S("B"), [c2, fg(S("C"), ("var", "p1"), [c2]), c2])]),
+        ("fgh|ghf|hfg", [provide_kw("pa", kw, [c3, c2]) for kw in (
+            [("f", S("1")), ("g", S("2")), ("h", S("3"))], [("g", S("5")), ("h", S("6")), ("f", S("4"))], [("h", S("9")), ("f", S("7")), ("g", S("8"))])]),
+        ("fg[wgf[c]]", [fg(S("A"), S("B"), [wrap("wgf", [c2]), c2])]),
+        ("gf[wpd[c]]", [gf(S("A"), S("B"), [wrap("wpd", [c2]), c2])]),
+        ("loop fg/gf", [("for", "i", ("var", "plist"), [fg(("var", "i"), S("x"), [c2]), gf(S("y"), ("var", "i"), [c2])])]),
+        ("pb-gf", [provide_kw("pb", [("g", S("bg")), ("f", S("bf"))], [comp("cons2"), fg(S("A"), S("B"), [c2])])]),
+    ]
+    return out
+
+
+def perm_programs():
+    for mode in ("isolated", "django"):
+        for label, body in perm_pages():
+            yield ("perm/%s/%s" % (mode, label),
+                   {"lib": FAMLIB, "page": [T("PAGE:")] + body + [T(":END")], "ctx": [("p1", "P1"), ("plist", ["I1", "I2"])], "mode": mode, "nerr": 1})
+
+
+# provide tags fed through a dict spread: the order of the keyword arguments is the insertion order of the dict
+SPREAD_CASES = [
+    ("spread fg", '{% provide "pa" ...d_fg %}{% component "consfg" %}{% endcomponent %}{% endprovide %}'),
+    ("spread gf", '{% provide "pa" ...d_gf %}{% component "consfg" %}{% endcomponent %}{% endprovide %}'),
+    ("spread gf(fg)", '{% provide "pa" ...d_gf %}{% component "consfg" %}{% endcomponent %}{% provide "pa" ...d_fg %}{% component "consfg" %}{% endcomponent %}'
+                      '{% endprovide %}{% endprovide %}'),
+    ("spread hgf + kw", '{% provide "pa" ...d_hgf %}{% component "cons3" %}{% endcomponent %}{% endprovide %}{% provide "pa" f="k1" ...d_hg %}{% component "cons3" %}'
+                        '{% endcomponent %}{% endprovide %}'),
+]
+SPREAD_CTX = {"d_fg": {"f": "sA", "g": "sB"}, "d_gf": {"g": "tB", "f": "tA"}, "d_hgf": {"h": "u3", "g": "u2", "f": "u1"}, "d_hg": {"h": "w3", "g": "w2"}}
+
+
 def family_programs():
     lib = FAMLIB
     for mode in ("isolated", "django"):
@@ -142,32 +194,46 @@ def shape_programs(chk, n, mode):
     r = chk.rng
     lib = FAMLIB
 
-    def body(depth, keys):
+    WFIELDS = {"wp": "f", "wpn": "f", "wpd": "fg", "wgf": "fg"}
+
+    def body(depth, keys, pf="fgh"):
+        """keys: provide keys statically around; pf: fields of the statically nearest `pa` provider ("fgh" when there is none:
+        the consumers then take their defaults)"""
         items = []
         for _ in range(r.randint(1, 3)):
             c = r.random()
             if depth >= 4 or c < 0.33:
                 strict_ok = "pa" in keys or r.random() < 0.08
-                items.append(comp(r.choice(["cons", "consd", "cons2"] if strict_ok else ["consd", "cons2"])))
+                cands = ["cons", "consd", "cons2"] if strict_ok else ["consd", "cons2"]
+                if "g" in pf:
+                    cands += ["consfg", "consfg"]
+                if "h" in pf:
+                    cands += ["cons3", "cons3"]
+                items.append(comp(r.choice(cands)))
             elif c < 0.55:
                 k = r.choice(["pa", "pa", "pb"])
                 val = r.choice([("str", "v%d" % r.randrange(9)), ("var", "p1"), ("var", "i")])
-                items.append(provide(k, val, body(depth + 1, keys | {k})))
+                kw = [("f", val)]
+                if r.random() < 0.6:     # 2-3 keyword arguments, written in a random order
+                    kw += [(n, ("str", "%s%d" % (n, r.randrange(9)))) for n in (["g"], ["g", "h"])[r.random() < 0.5]]
+                    r.shuffle(kw)
+                items.append(provide_kw(k, kw, body(depth + 1, keys | {k}, "".join(n for n, _ in kw) if k == "pa" else pf)))
             elif c < 0.85:
-                w = r.choice(WRAPPERS)
-                inner_keys = keys | ({"pa"} if w in ("wp", "wpd", "wpn") else set())
+                w = r.choice(WRAPPERS + ["wgf"])
+                inner_keys = keys | ({"pa"} if w in WFIELDS else set())
+                pf_in = WFIELDS.get(w, pf)
                 style = r.random()
                 if style < 0.15:
                     fb = []
                 elif style < 0.6:
-                    fb = [T("!")] + body(depth + 1, inner_keys)
+                    fb = [T("!")] + body(depth + 1, inner_keys, pf_in)
                 else:
-                    fb = [("fill", ("str", "s"), None, None, [T("!")] + body(depth + 1, inner_keys))]
+                    fb = [("fill", ("str", "s"), None, None, [T("!")] + body(depth + 1, inner_keys, pf_in))]
                 items.append(wrap(w, fb, only=(mode == "isolated" and r.random() < 0.2)))
             elif c < 0.93:
-                items.append(("for", "i", ("var", "plist"), body(depth + 1, keys) + [("out", ("var", "i"))]))
+                items.append(("for", "i", ("var", "plist"), body(depth + 1, keys, pf) + [("out", ("var", "i"))]))
             else:
-                items.append(("if", ("var", r.choice(["p1", "nope"])), body(depth + 1, keys), body(depth + 1, keys)))
+                items.append(("if", ("var", r.choice(["p1", "nope"])), body(depth + 1, keys, pf), body(depth + 1, keys, pf)))
             items.append(T(r.choice("|,;")))
         return items
     for i in range(n):
@@ -203,6 +269,13 @@ def possible_kinds(prog):
     if any(any(p[1] == d[1] and d[2] not in dict(p[2]) for p in provs) for d in injects):
         ks.add("EAttribute")
     return ks
+
+
+def iter_nodes(nodes):
+    for n in nodes:
+        yield n
+        for m in iter_nodes(n.children):
+            yield m
 
 
 def tree_stats(nodes, acc=None, path=()):
@@ -288,13 +361,17 @@ def rehook_attrs(cname, cd):
 
 
 def render_page(prog, dynamic=False, rehook=False):
+    """prog["raw"] = (template source, context dict): a page outside the calculus (dict spreads), rendered as written"""
     import djsetup
     from django.template import Context, Template
     with djsetup.components_settings(context_behavior=prog["mode"]):
         classes, cleanup = R.build(prog, dynamic, extra_attrs=rehook_attrs if rehook else None)
         try:
-            src = G.d_tpls(prog["page"], dynamic)
-            return R.outcome_of(lambda: Template(src).render(Context(dict(prog["ctx"]))), limit=15.0)
+            if prog.get("raw"):
+                src, ctx = prog["raw"][0], {k: dict(v) for k, v in prog["raw"][1].items()}
+            else:
+                src, ctx = G.d_tpls(prog["page"], dynamic), dict(prog["ctx"])
+            return R.outcome_of(lambda: Template(src).render(Context(ctx)), limit=15.0)
         finally:
             cleanup()
 
@@ -324,8 +401,11 @@ def run_one(cx, label, prog, dynamic=False, keep_tables=False, count=True, rehoo
                  "inject() did not return the data of the nearest enclosing {%% provide %%} of the rendered structure: %r" % (bad[:3],),
                  dict(replay, mismatches=bad[:5], structure=[n.to_obj() for n in roots]))
     # (O2) the whole structure and every inject() value vs the oracle on the program tree
-    exp = U.PyRef(prog, rehook=rehook).run()
-    if not dynamic:
+    raw = bool(prog.get("raw"))
+    exp = U.PyRef(prog, rehook=rehook).run() if not raw else None
+    if raw and o[0] == "err":
+        chk.fail("c05-spread-provider-raised", "a page whose provide tags take their keyword arguments from a dict spread raised %s" % o[1], replay)
+    if not dynamic and not raw:
         if o[0] == "ok" and exp[0] == "ok":
             got, want = U.canon_recorded(roots), U.canon_expected(exp[2])
             if got != want:
@@ -348,7 +428,7 @@ def run_one(cx, label, prog, dynamic=False, keep_tables=False, count=True, rehoo
     if o[0] == "err" and final != init:
         chk.dist["failed-render-left-table-entries(C06)"] += 1
     # Coq cases
-    if not (o[0] == "err" and o[1].startswith("other:")) and not dynamic:
+    if not (o[0] == "err" and o[1].startswith("other:")) and not dynamic and not raw:
         cx.core_terms.append("(%s, %s)" % (c_prog(prog), R.c_outcome(o)))
         cx.core_meta.append((label, prog, o))
     cx.trace_terms.append(U.c_trace_case(init, events, roots if o[0] == "ok" else None, o[0] == "ok" and init == EMPTY))
@@ -357,6 +437,8 @@ def run_one(cx, label, prog, dynamic=False, keep_tables=False, count=True, rehoo
         st = tree_stats(roots)
         nontriv = o[0] == "ok" and any(v >= 2 for v in st["hits"].values())
         feats = G.features(prog)
+        d0 = chk.dist
+        d0["providers-with->=2-kwargs"] += sum(1 for n in iter_nodes(roots) if n.kind == "prov" and len(n.payload) >= 2)
         small = len(G.d_tpls(prog["page"])) < 420 and sum(len(G.d_tpls(cd["tpl"])) for _, cd in prog["lib"]) < 900
         chk.count(json.dumps([prog, dynamic, rehook], sort_keys=True, default=list), nontriv,
                   kind="%s/%s/%s" % (prog["mode"], variant, "err" if o[0] == "err" else "ok"),
@@ -498,6 +580,7 @@ def run(tier, seed):
     U.RECORDER.clear_tables()
     cx = Ctx(chk)
     pool = []
+    perm_pool = []
     # corpus first (witnesses of fixed defects), then the exhaustive family of small shapes, then random programs
     for label, prog in corpus_programs():
         o = run_one(cx, label, prog)
@@ -506,6 +589,17 @@ def run(tier, seed):
     for i, (label, prog) in enumerate(fam):
         o = run_one(cx, label, prog, rehook=(i % 2 == 1 and prog["mode"] == "isolated"))
         pool.append((label, prog, o))
+    # providers passing the same set of 2-3 names in different orders (tags, shadowing, loops, dict spreads); every program of the
+    # run shares one process, so the first order seen anywhere is followed by the others
+    for rep in range(2):
+        for i, (label, prog) in enumerate(perm_programs()):
+            o = run_one(cx, "%s#%d" % (label, rep), prog, rehook=(rep == 1 and prog["mode"] == "isolated"))
+            pool.append((label, prog, o))
+            perm_pool.append((label, prog, o))
+        for mode in ("isolated", "django"):
+            for label, src in (SPREAD_CASES if rep == 0 else SPREAD_CASES[::-1]):
+                prog = {"lib": FAMLIB, "page": [T(src)], "ctx": [], "mode": mode, "nerr": 0, "raw": (src, SPREAD_CTX)}
+                run_one(cx, "%s/%s#%d" % (label, mode, rep), prog)
     n = 1800 if tier == "thorough" else 260
     for mode in ("isolated", "django"):
         for i, (label, prog) in enumerate(gen_programs(chk, n, mode)):
@@ -527,6 +621,7 @@ def run(tier, seed):
             o = run_one(cx, label, prog, rehook=(i % 2 == 1 and mode == "isolated"))
             pool.append((label, prog, o))
     run_histories(cx, pool, 120 if tier == "thorough" else 40, 4)
+    run_histories(cx, perm_pool, 30 if tier == "thorough" else 10, 3)      # histories of permuted-order providers only
     flush(cx, "all")
     U.RECORDER.clear_tables()
     chk.assumptions = [
@@ -543,10 +638,12 @@ def run(tier, seed):
     return chk.finish(
         rule="corpus; exhaustive family: %d small programs = {isolated, django} x 5 page-level provider wrappings (none / pa / pa shadowing pa / pb / pb inside pa) x %d bodies "
              "(1-3 sibling consumers of 3 kinds, 7 wrapper components [provider around the slot, consumer in the slot default, slot in a loop, pass-through slot in a nested "
-             "fill] with consumers in implicit / named fills, provider inside the fill, `only`, siblings after the wrapper, wrapper in wrapper, loops, if/with); then %d seeded "
+             "fill] with consumers in implicit / named fills, provider inside the fill, `only`, siblings after the wrapper, wrapper in wrapper, loops, if/with); then (twice) 18 programs whose providers pass the SAME SET of 2-3 keyword names in DIFFERENT written orders (siblings, "
+             "shadowing inner provider, component template vs page, loop iterations) with consumers reading every field by name, and 8 pages whose provide tags take their keyword "
+             "arguments from dict spreads of different insertion order (outside the calculus: recorded-structure oracle and trace model only); then %d seeded "
              "genprog programs per context behaviour with provide blocks at page level, in component templates, around slots, inside fills and loops (every 3rd also through the "
-             "dynamic component); then %d random compositions per context behaviour of the family's blocks (nesting depth <= 5, several consumers per provider, loops, `only` in "
-             "isolated mode); then %d histories of 2-5 renders in one process. Non-trivial = a successful render in which one provider is injected from by >= 2 component "
+             "dynamic component); then %d random compositions per context behaviour of the family's blocks (nesting depth <= 5, several consumers per provider, provide tags with 1-3 keyword arguments in random order, loops, `only` in "
+             "isolated mode); then %d histories (+ 10/30 histories drawn from the permuted-order programs only) of 2-5 renders in one process. Non-trivial = a successful render in which one provider is injected from by >= 2 component "
              "instances. Distinct = distinct program text and variant." % (len(fam), len(family_bodies()), n, nshape, 120 if tier == "thorough" else 40),
         explanation="18 theorems of Props/C05.v re-checked. Every render: output vs Core/Sem.v inside Coq; rendered structure and every inject() value vs the Python oracle on the "
                     "program tree and vs the nearest enclosing ProvideNode of the recorded structure; recorded event trace replayed on the Coq model of perfutil/provide.py "
